@@ -146,6 +146,32 @@ Proof.
   destruct (find _ (map _ _)); destruct (find (named lit) _); cbn in *; congruence.
 Qed.
 
+(* ---------- multi-valued lookup: all values joined ---------- *)
+Definition add_joined (acc : option bytes) (v : bytes) : option bytes :=
+  Some (match acc with Some prev => prev ++ bs "; " ++ v | None => v end).
+Lemma joined_fold_vals lit : forall hs acc, ascii_lower lit = lit -> Forall hdr_ok hs ->
+  fold_left (fun acc h => if eq_lower (hd_name h) lit then
+                            match hd_value h with
+                            | Some v => Some (match acc with Some prev => prev ++ bs "; " ++ v | None => v end)
+                            | None => acc end else acc) hs acc
+  = fold_left add_joined
+      (flat_map (fun h => if ci_eq (hd_name h) lit then match hd_value h with Some v => [v] | None => [] end else []) hs) acc.
+Proof.
+  induction hs as [|h hs IH]; intros acc Hl Hok; [reflexivity|].
+  inversion Hok as [|? ? [Ht Hv] Hok']; subst. cbn [fold_left flat_map].
+  rewrite eq_lower_ci by assumption. destruct (ci_eq (hd_name h) lit).
+  - destruct (hd_value h) as [v|]; [|congruence]. cbn [app fold_left]. now apply IH.
+  - cbn [app]. now apply IH.
+Qed.
+Lemma vals_model_headers lit : forall hs k,
+  flat_map (fun h => if ci_eq (hd_name h) lit then match hd_value h with Some v => [v] | None => [] end else [])
+           (map report_header (indexed hs k))
+  = map (fun h => render_value (hl_value h)) (filter (named lit) hs).
+Proof.
+  induction hs as [|h hs IH]; intros k; [reflexivity|]. cbn [indexed map flat_map filter].
+  unfold named at 1. cbn [report_header hd_name hd_value snd]. destruct (ci_eq (hl_name h) lit); cbn [app map]; now rewrite IH.
+Qed.
+
 (* ---------- p0f observation ---------- *)
 Lemma convert_header_p0f req h :
   convert_header req h =
